@@ -732,6 +732,91 @@ func (oa *orderAnalysis) effects(l *ordLoop) (effs []ordEffect, earlyExit bool) 
 			}
 		}
 	}
+	// several early exits with different outcomes: which one is taken first depends on the order, even when each of
+	// them alone hands out a constant (an exit that reports an error and another that reports success, say)
+	type outcome struct {
+		sig   string
+		isErr bool
+		pos   token.Pos
+	}
+	var outs []outcome
+	addOut := func(o outcome) {
+		for _, x := range outs {
+			if x.sig == o.sig {
+				return
+			}
+		}
+		outs = append(outs, o)
+	}
+	if l.yield {
+		for _, b := range l.fn.Blocks {
+			ret, ok := lastInstr(b).(*ssa.Return)
+			if !ok {
+				continue
+			}
+			if cb, isC := constBool(ret.Results[0]); isC && cb {
+				continue
+			}
+			if oa.exitIsYieldDriven(b, l) {
+				continue
+			}
+			var parts []string
+			isErr := false
+			for blk := b; blk != nil; {
+				for _, in := range blk.Instrs {
+					st, ok := in.(*ssa.Store)
+					if !ok {
+						continue
+					}
+					base := baseOf(st.Addr)
+					fv, isFV := base.(*ssa.FreeVar)
+					if !isFV || strings.HasPrefix(fv.Name(), "jump$") {
+						continue
+					}
+					val := "computed"
+					if c, ok := st.Val.(*ssa.Const); ok {
+						val = c.String()
+					} else if isErrorType(st.Val.Type()) {
+						isErr = true
+					}
+					parts = append(parts, describeVal(st.Addr)+"="+val)
+				}
+				if len(blk.Preds) == 1 && len(blk.Preds[0].Succs) == 1 {
+					blk = blk.Preds[0]
+				} else {
+					blk = nil
+				}
+			}
+			sort.Strings(parts)
+			addOut(outcome{strings.Join(parts, ","), isErr, ret.Pos()})
+		}
+	} else {
+		for b := range l.blocks {
+			for _, sc := range b.Succs {
+				if l.blocks[sc] || b == l.header || oa.exitIsYieldDriven(b, l) {
+					continue
+				}
+				if ret, ok := lastInstr(sc).(*ssa.Return); ok {
+					isErr := len(ret.Results) > 0 && isErrorType(ret.Results[len(ret.Results)-1].Type()) && !isNilConst(ret.Results[len(ret.Results)-1])
+					addOut(outcome{retDesc(ret), isErr, ret.Pos()})
+				}
+			}
+		}
+	}
+	if len(outs) >= 2 {
+		nonErr := 0
+		var sigs []string
+		for _, o := range outs {
+			if !o.isErr {
+				nonErr++
+			}
+			sigs = append(sigs, "{"+o.sig+"}")
+		}
+		sort.Strings(sigs)
+		if nonErr >= 1 {
+			add("exit:competing-outcomes", "the loop can end early in "+itoa(len(outs))+" different ways ("+strings.Join(sigs, " / ")+")", outs[0].pos, 2)
+		}
+	}
 	return effs, earlyExit
 }
 
